@@ -64,7 +64,7 @@ ASSUMPTIONS = [
 REQUIRED = ["n_dep_frame_initiator", "n_dep_frame_target", "n_llcp_decode", "n_tt3_emulation", "n_llc_activate",
             "n_dep_initiator", "n_dep_target", "n_llc_run", "n_llc_run_threaded", "n_snep_server", "n_handover_server",
             "n_snep_client", "n_connect_card", "n_connect_llcp", "llc_run_returned", "threads_started",
-            "agf_depth_accepted"]
+            "agf_depth_accepted", "outcome_tt3_emulation_misframed_ignored"]
 
 NSHARDS = 16
 
@@ -666,8 +666,17 @@ class T3Emu(object):
                    "Type3TagEmulation.process_command(%s) raised %s (documented: response bytes or None)"
                    % (bytes(cmd)[:32].hex(), type(e).__name__))
             return
+        misframed = len(cmd) > 0 and cmd[0] != len(cmd)       # the LEN byte of a FeliCa frame counts itself
         if r is None:
             st.c["None"] += 1
+            if misframed:
+                st.c["misframed_ignored"] += 1
+        elif isinstance(r, (bytes, bytearray)) and misframed:
+            st.c["misframed_answered"] += 1
+            self.R.violation("malformed-answered/tt3-emulation/len-byte-mismatch",
+                             "process_command(%s): the LEN byte says %d, the command has %d bytes; it must be ignored "
+                             "but was answered with %s" % (bytes(cmd)[:24].hex(), cmd[0], len(cmd), bytes(r)[:16].hex()),
+                             {"pos": "tt3-emulation", "cmd": bytes(cmd)})
         elif isinstance(r, (bytes, bytearray)):
             st.c["response"] += 1
             if len(r) >= 12 and r[1] in (7, 9):
